@@ -1,6 +1,6 @@
 (* C10 - All views of the board describe one consistent legal position. *)
 From Coq Require Import NArith List Bool.
-From Arimaa Require Import Types U64 Board Engine Cells Rules Monitors StepLemmas GenLemmas Invariant Traps Setup Pending Material Counting.
+From Arimaa Require Import Types U64 Board Engine Cells Rules Monitors StepLemmas GenLemmas Invariant Traps Setup Pending Material Counting HashInv InvExec.
 Open Scope N_scope.
 
 (* every state satisfying the (inductive) play-phase invariant has a well-formed board: each occupied
@@ -48,3 +48,10 @@ Print Assumptions C10_traps_reachable.
 Theorem C10_material : forall s, ReachI s -> forall o k, (npk (cell (board s)) o k <= N.to_nat (complement k))%nat.
 Proof. intros s R. exact (proj1 (reachI_within s R)). Qed.
 Print Assumptions C10_material.
+
+(* soundness of the executable invariant test used by the monitors on states assembled through the public
+   constructors (generators G-built, G-trap, G-matrix, G-immobile): a state that passes it satisfies the play
+   invariant and the hash invariant under which the `inv`-level monitor clauses are theorems *)
+Theorem C10_monitor_invariant_sound : forall s, inv_exec s = true -> exists pp, HashInv s pp.
+Proof. exact inv_exec_sound. Qed.
+Print Assumptions C10_monitor_invariant_sound.
